@@ -6,6 +6,7 @@ CONSTANTS
   K = 2
   MaxHist = 4
   HasErase = TRUE
+  Copies = FALSE
   Mutation = "none"
 CONSTRAINT Bound
 VIEW repview
